@@ -744,9 +744,25 @@ class Macro(Element):
                 parname = item.nodeName
                 break
 
+        # Quotes and dashes are only ligatures in text: no character
+        # substitutions in content that belongs to a math environment
+        # (brace groups and array cells in math end up here).  The
+        # enclosing nodes decide; inside an argument that is still being
+        # parsed they are not linked yet and the context knows.
+        charsubs = self.ownerDocument.charsubs
+        mathMode = None
+        node = self
+        while node is not None and mathMode is None:
+            mathMode = getattr(node, 'mathMode', None)
+            node = getattr(node, 'parentNode', None)
+        if mathMode is None:
+            mathMode = self.ownerDocument.context.isMathMode
+        if mathMode:
+            charsubs = []
+
         # No paragraphs, and we aren't forcing paragraphs...
         if parname is None and not force:
-            self.normalize(self.ownerDocument.charsubs)
+            self.normalize(charsubs)
             return
 
         if parname is None:
@@ -778,7 +794,7 @@ class Macro(Element):
         # Insert nodes into self
         for i, item in enumerate(newnodes):
             if item.level == Node.PAR_LEVEL:
-                item.normalize(self.ownerDocument.charsubs)
+                item.normalize(charsubs)
             self.insert(i, item)
 
         # Filter out any empty paragraphs
